@@ -61,8 +61,8 @@ static int run_replay(const char *path) {
 static int run_random(uint64_t seed, long n) {
   vrt::Rng r(seed);
   for (long i = 0; i < n; ++i) {
-    const int frames = (i % 100 == 99) ? r.range(2000, 10000) : r.range(1, 200);
-    const int ntracks = r.range(0, 8);
+    const int frames = (i % 100 == 99) ? r.range(2000, 10000) : (i % 100 == 49 ? 4096 : r.range(1, 200));
+    const int ntracks = frames == 4096 ? r.range(1, 3) : r.range(0, 8);
     const bool ts_first = r.coin();
     KeyframeAnimation anim;
     std::vector<float> ts(frames);
@@ -76,6 +76,7 @@ static int run_random(uint64_t seed, long n) {
       Track tr;
       tr.comps = r.coin(1, 4) ? 16 : r.range(1, 4);
       tr.dt = r.coin(3, 4) ? DT_FLOAT32 : DT_INT32;
+      if (frames == 4096 && t == 0) { tr.comps = 16; tr.dt = DT_INT32; }
       tr.q = (tr.dt == DT_FLOAT32 && r.coin(1, 3)) ? r.range(4, 20) : 0;
       if (tr.dt == DT_FLOAT32) {
         tr.f.resize((size_t)frames * tr.comps);
@@ -85,8 +86,19 @@ static int run_random(uint64_t seed, long n) {
       } else {
         tr.iv.resize((size_t)frames * tr.comps);
         // value classes: moderate, hugging INT32_MAX, hugging INT32_MIN, the whole int32 range, constant
-        const int cls = r.range(0, 5);
+        const bool forced = frames == 4096 && t == 0;     // the 4096-frame animations always carry one 16-component hold-or-step track with 1025 residual symbols
+        const int cls = forced ? 6 : r.range(0, 6);
         const int32_t konst = (int32_t)r.u32();
+        if (cls == 6) {
+          // "hold or step": per component exactly half of the frame-to-frame deltas are 0, the other half spread evenly over +-1..+-W (W = 2^k): with
+          // enough frames the residual alphabet is large and one symbol holds probability exactly 1/2 -- the table-precision boundaries of the entropy coder
+          const int W = forced ? 512 : 1 << r.range(3, 9);
+          int32_t cur = 0;
+          for (int k = 0; k < frames; ++k) {
+            if (k % 2) cur += (int32_t)(((k / 2) % W) + 1) * (((k / 2) / W) % 2 ? -1 : 1);
+            for (int c = 0; c < tr.comps; ++c) tr.iv[(size_t)k * tr.comps + c] = cur + c;
+          }
+        } else
         for (auto &x : tr.iv)
           x = cls <= 1 ? r.range(-100000, 100000) : cls == 2 ? INT32_MAX - r.range(0, 200) : cls == 3 ? INT32_MIN + r.range(0, 200) : cls == 4 ? (int32_t)r.u32() : konst;
         tr.id = anim.AddKeyframes(DT_INT32, tr.comps, tr.iv);
@@ -108,6 +120,8 @@ static int run_random(uint64_t seed, long n) {
     EncoderOptions eo = EncoderOptions::CreateDefaultOptions();
     const int speed = r.range(0, 10);
     eo.SetSpeed(speed, speed);
+    const bool builtin = !r.coin(1, 5);
+    if (!builtin) eo.SetGlobalBool("use_built_in_attribute_compression", false);    // values stored with the smallest sufficient byte width instead of entropy coded
     for (auto &tr : tracks) if (tr.q > 0 && tr.id >= 0 && !tr.deleted) eo.SetAttributeInt(anim.GetAttributeIdByUniqueId(tr.id), "quantization_bits", tr.q);
     EncoderBuffer eb;
     KeyframeAnimationEncoder enc;
@@ -121,7 +135,15 @@ static int run_random(uint64_t seed, long n) {
       DecoderOptions dopt;
       dok = dec.Decode(dopt, &db, &outa).ok();
     }
-    out.begin("Anim").i("case", i).i("frames", frames).i("speed", speed).b("ts_first", ts_first).b("eok", st.ok()).b("dok", dok).i("out_frames", dok ? outa.num_frames() : -1);
+    // the codec's documented reach: integer tracks whose value range stays below 2^30 (the wrap transform and the symbol coders handle ranges below 2^31 - 1;
+    // the band up to there is left undecided).  Inside it a valid animation must encode -- a refusal is a failure of "encoding ... and decoding it returns"
+    bool must_encode = true;
+    for (const Track &tr : tracks) {
+      if (tr.deleted || tr.dt != DT_INT32 || tr.iv.empty()) continue;
+      const auto mm = std::minmax_element(tr.iv.begin(), tr.iv.end());
+      if ((int64_t)*mm.second - (int64_t)*mm.first >= (1ll << 30)) must_encode = false;
+    }
+    out.begin("Anim").i("case", i).i("frames", frames).i("speed", speed).b("builtin", builtin).b("must_encode", must_encode).b("ts_first", ts_first).b("eok", st.ok()).b("dok", dok).i("out_frames", dok ? outa.num_frames() : -1);
     // timestamps: value ids per frame
     {
       Dict d; std::vector<int> a, b;
